@@ -119,7 +119,8 @@ def contracts(p: Program) -> list[str]:
             'not (self.tasks[request][0] in self.mailboxes)',
             '''forall(lambda m: implies(m != self.tasks[request][0],
                  (m in self.mailboxes) == (m in old(self.mailboxes))
-                 and self.mailboxes[m] == old(self.mailboxes[m])), 'int')''',
+                 and implies(m in self.mailboxes,
+                     self.mailboxes[m] == old(self.mailboxes[m]))), 'int')''',
             'other_clients_same(self, self.tasks[request][1])',
             '''implies(self.tasks[request][1] in old(self.clients),
                  self.tasks[request][1] in self.clients
@@ -325,10 +326,16 @@ def contracts(p: Program) -> list[str]:
             'no_client_touched(self)',
             '''forall(lambda i: implies(i != task.task_id,
                  (i in self.tasks) == old(i in self.tasks)
-                 and self.tasks[i] == old(self.tasks[i])), 'UUID')''',
+                 and implies(i in self.tasks,
+                     self.tasks[i] == old(self.tasks[i]))), 'UUID')''',
+            '''forall(lambda i: implies(old(i in self.tasks),
+                 i in self.tasks and self.tasks[i] == old(self.tasks[i])
+                 and (self.tasks[i][0] in self.mailboxes)
+                     == old(self.tasks[i][0] in self.mailboxes)), 'UUID')''',
             '''forall(lambda m: implies(m != old(self.mailbox_counter),
                  (m in self.mailboxes) == old(m in self.mailboxes)
-                 and self.mailboxes[m] == old(self.mailboxes[m])), 'int')''',
+                 and implies(m in self.mailboxes,
+                     self.mailboxes[m] == old(self.mailboxes[m]))), 'int')''',
         ],
         raises=[],
     ))
@@ -430,6 +437,51 @@ def contracts(p: Program) -> list[str]:
         ],
         raises=[],
     ))
+    # ---- dispatch: what a client message does to the server ----------------
+    common_req = [
+        'Inv_srv(self)', 'Inv_emp(self)', 'conn in self.clients',
+        'direction == MessageDirection.CLIENT',
+    ]
+    common_ens = [
+        'Inv_srv(self)', 'other_clients_same(self, conn)',
+        'only_client_touched(self, conn)',
+        '''forall(lambda i: implies(old(i in self.tasks)
+               and old(self.tasks[i][1]) != conn,
+             i in self.tasks and self.tasks[i] == old(self.tasks[i])
+             and (self.tasks[i][0] in self.mailboxes)
+                 == old(self.tasks[i][0] in self.mailboxes)), 'UUID')''',
+    ]
+    for m, pty, extra_req, extra_ens in (
+        ('STATUS', 'UUID', [], [
+            '''nsent() == old(nsent()) + 1
+               and eff(nsent() - 1, 'outgoing.put', conn,
+                       RuntimeMessage.STATUS, ANY)''',
+        ]),
+        ('REQUEST', 'UUID', [], []),
+        ('CANCEL', 'UUID', [], [
+            # every cancel request is acknowledged, whatever the id
+            '''nsent() > old(nsent())
+               and eff(nsent() - 1, 'outgoing.put', conn,
+                       RuntimeMessage.CANCEL, None)''',
+            '''implies(old(payload in self.clients[conn]),
+                 not (self.tasks[payload][0] in self.mailboxes))''',
+        ]),
+        ('SUBMIT', 'ref[CompilationTask]', [
+            'len(self.employees) >= 1',
+            'not (payload.task_id in self.tasks)',
+        ], ['payload.task_id in self.clients[conn]']),
+        ('DISCONNECT', 'Any', [], ['not (conn in self.clients)']),
+    ):
+        add(Contract(
+            'DetachedServer.handle_message#CLIENT.' + m,
+            params={
+                'msg': 'RuntimeMessage', 'direction': 'MessageDirection',
+                'conn': 'Conn', 'payload': pty,
+            },
+            requires=common_req + ['msg == RuntimeMessage.' + m] + extra_req,
+            ensures=common_ens + extra_ens,
+            raises=[],
+        ))
     return targets
 
 
@@ -437,3 +489,41 @@ def setup(repo: str) -> tuple[Program, list[str]]:
     p = build(repo)
     add_macros(p)
     return p, contracts(p)
+
+
+def bounded(tier: str) -> dict:
+    """Engine B: scenario generators per contract (small-scope exhaustive)."""
+    from pybound import rt
+    mc, mt = (2, 2) if tier == 'quick' else (3, 3)
+
+    def servers():
+        return rt.server_scenarios(rt.DetachedServer, mc, mt)
+
+    def servers_clients_only():
+        for sc in rt.server_scenarios(rt.DetachedServer, mc, mt):
+            sc.extra['overrides'] = {'Conn': lambda sc: sc.extra['clients']}
+            yield sc
+    out = {}
+    for f in (
+        'DetachedServer.handle_status', 'DetachedServer.handle_request',
+        'DetachedServer.handle_disconnect',
+        'DetachedServer.handle_new_comp_task',
+    ):
+        out[f] = servers_clients_only
+    for f in (
+        'DetachedServer.handle_cancel_comp_task',
+        'DetachedServer.handle_result', 'DetachedServer.handle_error#tuple',
+        'DetachedServer.handle_log', 'ServerBase.broadcast',
+    ):
+        out[f] = servers
+    for m in ('STATUS', 'REQUEST', 'CANCEL', 'SUBMIT', 'DISCONNECT'):
+        def gen(m=m):
+            for sc in rt.server_scenarios(rt.DetachedServer, mc, mt):
+                sc.extra['overrides'] = {
+                    'Conn': lambda sc: sc.extra['clients'],
+                    'msg': [getattr(rt.RuntimeMessage, m)],
+                    'direction': [rt.MessageDirection.CLIENT],
+                }
+                yield sc
+        out['DetachedServer.handle_message#CLIENT.' + m] = gen
+    return out
